@@ -50,7 +50,7 @@ def build_stream(frames):
 
 
 def run_case(case: dict) -> CaseResult:
-    frames = [(f[0], f[1]) for f in case["frames"]]
+    frames = [(f[0], f[1]) for f in case["frames"]] * int(case.get("repeat", 1))
     stream, layout = build_stream(frames)
     total = len(stream)
     cuts = [c for c in case.get("cuts", []) if 0 <= c <= total]
@@ -59,7 +59,17 @@ def run_case(case: dict) -> CaseResult:
     expected_all, rest = wire.parse_plain_stream(stream)
     assert rest == total and len(expected_all) == len(frames)
 
-    h, conn, tr = fstub.make_plain()
+    gaps = case.get("gaps")  # seconds of (virtual) time passing after chunk i; None: no loop turn at all
+    sim = fstub.sim_loop() if gaps else None
+    try:
+        return _run(case, frames, stream, layout, total, cuts, kinds, expected_all, gaps, sim)
+    finally:
+        if sim is not None:
+            sim.dispose()
+
+
+def _run(case, frames, stream, layout, total, cuts, kinds, expected_all, gaps, sim) -> CaseResult:
+    h, conn, tr = fstub.make_plain(sim)
     res = CaseResult()
     fed = 0
     classes = set()
@@ -106,6 +116,20 @@ def run_case(case: dict) -> CaseResult:
                 Violation(ID, "c01:error-on-wellformed-stream", f"errors={conn.errors!r} closed={tr.closed}")
             )
             break
+        if gaps:
+            # time passes before the next chunk: an incomplete trailing frame is retained however long that takes,
+            # and loop turns deliver nothing more and nothing late
+            g = float(gaps[i % len(gaps)])
+            classes.add("time_between_chunks")
+            if g >= 30:
+                classes.add("gap_ge_30s")
+            fstub.advance(sim, g)
+            if len(conn.packets) != len(exp) or conn.errors or tr.closed:
+                res.violations.append(Violation(ID, "c01:changed-while-waiting-for-more-bytes",
+                                                f"after chunk {i} ({fed}/{total} bytes) and {g}s without new data: {len(conn.packets)} frames delivered (expected {len(exp)}), errors={conn.errors!r} closed={tr.closed}"))
+                break
+    if len(frames) > 64:
+        classes.add("frames_gt_64")
     for c in cuts:
         if 0 < c < total and c not in bounds:
             inside = True
@@ -152,7 +176,16 @@ def _case(draw, tier):
         interesting += list(range(s, he + 2)) + [e - 1, e, e + 1]
     cuts = draw(gen.cuts_for(len(stream), interesting))
     kinds = draw(gen.chunk_kinds())
-    return {"frames": frames, "cuts": cuts, "kinds": kinds}
+    case = {"frames": frames, "cuts": cuts, "kinds": kinds}
+    r = draw(st.integers(0, 9))
+    if r == 4 and frames and len(stream) < 400:
+        # a long burst: the same short frames many times over, few chunks
+        case["repeat"] = draw(st.sampled_from([9, 33, 65, 70, 130, 300]))
+        tot = len(stream) * case["repeat"]
+        case["cuts"] = sorted(draw(st.lists(st.integers(0, tot), max_size=4)))
+    elif r == 5:
+        case["gaps"] = draw(st.lists(st.sampled_from([0, 0.01, 1, 5, 9.5, 29, 31, 45, 100, 1000]), min_size=1, max_size=4))
+    return case
 
 
 def strategy(tier):
@@ -190,6 +223,17 @@ CATALOGUE = [
 
 
 def enumerated(tier):
+    # bursts: many complete frames in one chunk / two chunks
+    for n in (63, 64, 65, 66, 128, 129, 200, 257, 1000):
+        yield {"frames": [[7, {"h": ""}]], "repeat": n, "cuts": [], "kinds": [0]}
+        yield {"frames": [[26, {"h": "0d01000000"}], [8, {"h": ""}]], "repeat": n, "cuts": [n * 5 + 3], "kinds": [1, 2]}
+    # a stream whose chunks always end inside a frame, with (virtual) time passing in between
+    fr = [[26, {"h": "0d010000001001"}], [25, {"h": "0d02000000", "pad": [0, 40]}]]
+    st_, lay = build_stream([(f[0], f[1]) for f in fr] * 12)
+    mids = [s + 2 for (s, _h, _e) in lay][1:]
+    for g in ([1], [9], [29, 2], [31], [100], [0.01, 600]):
+        yield {"frames": fr, "repeat": 12, "cuts": mids, "kinds": [0, 1], "gaps": g}
+    yield {"frames": [[35, {"h": "", "pad": [1, 3000]}]], "cuts": list(range(100, 3000, 100)), "kinds": [0], "gaps": [2]}
     for ci, frames in enumerate(CATALOGUE):
         stream, _ = build_stream([(f[0], f[1]) for f in frames])
         n = len(stream)
